@@ -21,7 +21,7 @@ Contents
 5. Genuine defects found on the pinned tree, their repair, the one known finding
 6. Limits, honest non-coverage, tooling limits, known false-alarm surface
 7. Interface (commands, exit codes, evidence, known findings, thorough tier)
-8. Validation of the machinery: eight rounds of seeded mutations, controls, nine
+8. Validation of the machinery: nine rounds of seeded mutations, controls, nine
    rounds of behaviour-preserving refactorings; which check catches which change;
    what was missed; false alarms met and how they were removed
 
@@ -111,7 +111,7 @@ on `stream.Merge`, i.e. on the same defect the ownership rule found (F2).
 /verif/evidence/Cnn.json   rewritten by every run
 /verif/reports/            violation reports named in "VIOLATION … replay=<path>" (git-ignored)
 /verif/controls/Cnn/*.diff 121 one-line control edits (tools/gen_controls.py)
-/verif/seeded/*/           460 sub-agent mutations with demonstration tests and meta.json
+/verif/seeded/*/           520 sub-agent mutations with demonstration tests and meta.json
 /verif/refactorings/*/     behaviour-preserving refactorings used as false-alarm tests
 /verif/tools/              baseline.sh, seed_import.sh, seed_confirm.sh, seed_run.sh, ref_run.sh, ref_all.sh, regress.sh,
                            gen_manifest.py, gen_matrix.py, gen_design.py, validate.py
@@ -400,7 +400,7 @@ the clean tree, patch applies and builds, demo fails with the patch, suite
 passes twice with the patch) before it was kept under `/verif/seeded/<id>/`
 (`patch.diff`, `zz_seed_demo_test.go`, `meta.json`), and each was then applied
 to `/repo` itself, checked, and undone (`tools/seed_confirm.sh`, recorded in
-`meta.json: check_against_repo`). 460 kept (40 in round 1, 60 in each of rounds 2-8).
+`meta.json: check_against_repo`). 520 kept (40 in round 1, 60 in each of rounds 2-9).
 
 * Round 1 (40): all caught by the rules that existed when each seed arrived,
   several of which (`C03.split-halves` rewrite direction, `C19.tail-cleared`
@@ -582,8 +582,8 @@ to `/repo` itself, checked, and undone (`tools/seed_confirm.sh`, recorded in
   the stored fields, or by dropping a condition that was not necessary ("every
   round stores" is not implied by totality).
 
-* Round 9 (ROUND9_COUNT, after the round-9 refactoring hardening; prompts listed all
-  twenty-three earlier mutations per property): **ROUND9_CAUGHT caught at once, ROUND9_MISSED
+* Round 9 (60, after the round-9 refactoring hardening; prompts listed all
+  twenty-three earlier mutations per property): **42 caught at once, 18
   missed**. (a) *sibling property* (the rule existed under the property next door):
   `C08.results-in-order` (from `C14.order`), `C08.no-empty-batch` (from
   `C11.batch-timer`), `C15.position-mod-reduced` (from `C04.index-discipline`),
@@ -603,14 +603,20 @@ to `/repo` itself, checked, and undone (`tools/seed_confirm.sh`, recorded in
   `C01/C03.tail-clear-lockstep` (the vacated child slot is the vacated key slot + 1,
   stores to n in between accounted for), `C02.cursor-tree-fixed` (a cursor's tree
   pointer is written at construction only; an iterator's cursor is only replaced by
-  a copy of another cursor). The new rules alarmed on 6 kept refactorings when first
+  a copy of another cursor), `C02/C01.range-wrappers-live` (Map / Set Range,
+  RangeReverse and Iterate return the tree's live cursor iterator on every path,
+  never data collected at creation), `C03/C01.split-left-guards-agree` (in overfill
+  the left half's children are rewritten under the same condition as its keys: over
+  the left half both are disturbed by the new entry in exactly the same cases). The
+  new rules alarmed on 7 kept refactorings when first
   run (halves sharing an embedded `pipeShared` value, the membership test in
   `inAll(sets[1:], k)` / `forEachCommon`, `removeOne` used for the tail, a
-  `pinChan()` / `unpinChan()` pair around the read lock); each was removed by
+  `pinChan()` / `unpinChan()` pair around the read lock, the fill loops of the split in
+  `fillFrom`); each was removed by
   following the helper / the embedded struct (`releasedByCallee`).
 
 A rule written after seeing a seed says so above; that is the honest reading of
-"caught": all ROUND9_TOTAL seeds are reported today; in rounds 2-9, ROUND9_SUM of ROUND9_DEN were
+"caught": all 520 seeds are reported today; in rounds 2-9, 306 of 480 were
 reported by the rules that existed when the seed arrived.
 
 ### 8.2 Controls
